@@ -112,15 +112,28 @@ class World:
         elif kind == 'reg':
             p = P[op[1]]
             fd, fname = self.fds[op[2]]
-            if op[3]:
-                p.real.register_function(fd, exclusive=True)
-            else:
-                p.real.register_function(fd)
+            try:
+                if op[3]:
+                    p.real.register_function(fd, exclusive=True)
+                else:
+                    p.real.register_function(fd)
+            except Exception as e:
+                self.rec.violation('operation-raises:register_function:%s' % p.model.kind,
+                                   'register_function(%s, exclusive=%r) on %s raised %r' % (op[2], op[3], p.desc, e),
+                                   {'ops': self.log})
+                return True
             mc.register(p.model, op[2], fname, op[3])
         elif kind == 'delfn':
             p = P[op[1]]
             fd, fname = self.fds[op[2]]
-            p.real.delete_function(fd)
+            try:
+                p.real.delete_function(fd)
+            except Exception as e:
+                # removal concerns the context's own storage; a definition it does not hold leaves the history
+                # going (the model's delete_function is a no-op there)
+                self.rec.violation('operation-raises:delete_function:%s' % p.model.kind,
+                                   'delete_function(%s) on %s raised %r' % (op[2], p.desc, e), {'ops': self.log})
+                return True
             mc.delete_function(p.model, op[2], fname)
         else:
             raise ValueError(kind)
